@@ -27,6 +27,9 @@ Decided (design section 5, C08):
      G3-close-gets-future            Writer::close: do_close() first, then m_write_future.get() whenever valid(), its value returned
      G4-do-close-end-of-data-once    do_close: the lambda writes the rest, write_end(), status closed, end-of-data exactly once as its last
                                       action (the outer `m_status == okay` test is redundant with ensure_cleanup's and not required)
+     G6-no-empty-buffer-to-encoder   end-of-data marker discipline: every hand-over to OutputFormat::write_buffer is unreachable when
+                                      committed() of the handed-over Buffer (followed through swap / move / helper parameter) is 0 -- an empty
+                                      block encodes to the empty string, i.e. the marker that only the closing path (G4, G2) may produce
      G5-flush-polls-future           do_flush polls the write future whenever the notification flag is set (check_for_exception shape)
  5   F1-output-queue-gets-pool-futures every push on a Queue<future<string>> passes the result of Pool::submit or the future of a local promise
      F3-encoder-exceptions-travel    no catch handler inside a functor class submitted to the pool completes without rethrowing
@@ -676,6 +679,71 @@ def writer_rules(fb, R):
             R.check(ok, 'G1-writer-mutators-gated', '%s#%s' % (f.q, n['q'].rsplit('::', 1)[-1]), f.loc(n['id']),
                     '%s is called from %s, which is neither a private output helper nor a lambda run by ensure_cleanup' % (n['q'], f.q))
 
+    # ---- G6  end-of-data marker discipline: an empty buffer encodes to the empty string, which IS the end marker
+    WB = OUTPUT_FORMAT + '::write_buffer'
+    COMMITTED = 'osmium::memory::Buffer::committed'
+
+    def aliases(f, root):
+        """variables that hold the same Buffer as `root` at some point: partners of a swap, source of a move into it."""
+        out = {root[:2]}
+        for n in f.all_nodes():
+            if n.get('k') == 'call' and n.get('q', '').rsplit('::', 1)[-1] == 'swap':
+                rs = [f.root_var(a) for a in ([n.get('recv')] if n.get('recv') is not None else []) + list(n.get('args', []) or []) if a is not None]
+                rs = [r[:2] for r in rs if r is not None]
+                if len(rs) == 2 and (rs[0] in out or rs[1] in out):
+                    out |= set(rs)
+            elif n.get('k') == 'decl':
+                for v in n['vars']:
+                    if ('var', v['d']) in out and isinstance(v.get('init'), int):
+                        r = f.root_var(strip_to_source(f, v['init']))
+                        if r is not None:
+                            out.add(r[:2])
+        return out
+
+    def strip_to_source(f, nid):
+        x = scn(f, nid)
+        return x['id'] if x is not None else nid
+
+    def nonempty_guarded(f, call, argi, depth=0):
+        """Assuming every committed() on the handed-over buffer returns 0, the hand-over is unreachable."""
+        args = call.get('args', []) or []
+        if argi >= len(args):
+            return False, 'no buffer argument'
+        root = f.root_var(args[argi])
+        if root is None or root[0] not in ('var', 'field'):
+            return False, 'cannot identify the buffer that is handed over'
+        names = aliases(f, root)
+        seeds = [n['id'] for n in f.all_nodes() if n.get('k') == 'call' and n.get('q') == COMMITTED
+                 and (f.root_var(n.get('recv')) or (None,))[:2] in names]
+        if seeds:
+            o = E.explore(f, (f.entry, 0), {('node', i): E.fin(0) for i in seeds}, fb=fb)
+            if call['id'] not in o.reached and not o.truncated:
+                return True, ''
+            return False, 'the hand-over is reachable with committed() == 0'
+        # the test may sit in the callers when the buffer is a parameter of a private helper
+        pidx = {p['d']: i for i, p in enumerate(f.params)}
+        if depth < 2 and root[0] == 'var' and root[1] in pidx and f.cls == WRITER and not f.is_lambda and f.access != 'public':
+            callers = E.callers_of(fb, f)
+            if callers:
+                for (g, c) in callers:
+                    ok, why = nonempty_guarded(g, c, pidx[root[1]], depth + 1)
+                    if not ok:
+                        return False, 'caller %s: %s' % (g.q, why)
+                return True, ''
+        return False, 'no committed() test on the buffer that is handed over'
+    nwb = 0
+    for f in wfns:
+        for n in f.all_nodes():
+            if n.get('k') == 'call' and n.get('q') == WB:
+                nwb += 1
+                ok, why = nonempty_guarded(f, n, 0)
+                R.check(ok, 'G6-no-empty-buffer-to-encoder', '%s#write_buffer' % f.q, f.loc(n['id']),
+                        'an empty Buffer can be handed to OutputFormat::write_buffer from %s (%s): its encoding is the empty string, which the '
+                        'write thread takes for the end-of-data marker -- the file is closed early, later data is dropped and close() reports '
+                        'success; only the closing path may produce the marker' % (f.q, why))
+    if nwb == 0:
+        R.broken('Writer never calls OutputFormat::write_buffer')
+
     # ---- G2
     ecs = fb.fns(EC)
     if not ecs:
@@ -1015,6 +1083,7 @@ def run(ctx):
     R.expect('G2-ensure-cleanup-shape', 7)
     R.expect('G3-close-gets-future', 1)
     R.expect('G4-do-close-end-of-data-once', 1)
+    R.expect('G6-no-empty-buffer-to-encoder', 2)
     R.expect('G5-flush-polls-future', 1)     # + check_for_exception while it is used
     R.expect('F1-output-queue-gets-pool-futures', 7)
     R.expect('F2-write-buffer-submits', 5)
